@@ -49,7 +49,7 @@ def payloads(E, st, v, depth=0):
     return None, False
 
 
-def run(prog, rep, tier):
+def run(prog, rep, tier, only=None):
     K = 8 if tier == 'quick' else 16
     rep.explanation = ('One abstract interpretation of Message::try_from over arbitrary bytes; at each Aggregate statement that builds a '
                        'listed struct the interval / known-bits / divisibility of every listed field is compared with its physical range; '
@@ -174,6 +174,8 @@ def run(prog, rep, tier):
         ok = not nan and lo > -INF and hi < INF
         rep.check(ok, 'R2-finite', '%s.%s#finite' % (tname.split('decode::')[-1], fname), site,
                   '%s.%s may be %s (interval [%r, %r])' % (tname, fname, 'NaN' if nan else 'infinite', lo, hi), nontrivial=True)
+    if only == 'R2':
+        return          # composed into C01 / C07: finiteness is the clause they share with this property
     # ---- R3
     allowed = set(b'ABCDEFGHIJKLMNOPQRSTUVWXYZ0123456789 #')
     tables = 0
